@@ -188,6 +188,7 @@ type Stats struct {
 	SampledClasses int
 	AssertConst    int
 	AssertUnsat    int
+	GuessedModels  int
 	Obligations    int
 	DecideQueries  int
 	DecideSat      int
@@ -226,6 +227,7 @@ func (s *Stats) merge(o *Stats) {
 	s.SampledClasses += o.SampledClasses
 	s.AssertConst += o.AssertConst
 	s.AssertUnsat += o.AssertUnsat
+	s.GuessedModels += o.GuessedModels
 	s.Obligations += o.Obligations
 	s.DecideQueries += o.DecideQueries
 	s.DecideSat += o.DecideSat
@@ -318,6 +320,16 @@ func (w *Worker) decide(e *Exec, q *Term) Result {
 	used := w.solver
 	w.solver.Declare(e.inputs)
 	r := w.solver.Check(conds)
+	if r == Unknown {
+		// the first solver gave up: before the slower ones, look for a model by evaluating the query under a few
+		// candidate assignments (a hit is a genuine model and is replayed natively like any other)
+		if m := e.guessModel(q); m != nil {
+			w.lastModel = m
+			w.stats.GuessedModels++
+			w.stats.DecideSat++
+			return Sat
+		}
+	}
 	if r == Unknown && w.fresh != nil {
 		w.fresh.Declare(e.inputs)
 		r = w.fresh.Check(conds)
